@@ -162,7 +162,11 @@ def run(ctx: Ctx) -> int:
         return ctx.finish("model_checking", "replay of one recorded document (and defect)")
     tier = ctx.tier
     tlc.model_check(ctx, "Fpef", f"Fpef_c05_mc_{tier}", vacuity_ignore=("Emit", "Save", "Reload", "Resave"))
-    gen = generated_docs(ctx, f"Fpef_gen_{tier}")
+    # the generation cfg is shared with C04; documents in which a terminal has rectangles (c05 = 0) belong to C04 only:
+    # for C05 a terminal is a point ("zero for terminals"), so they are neither generated as well-formed nor judged here
+    allgen = generated_docs(ctx, f"Fpef_gen_{tier}")
+    gen = [g for g in allgen if g.get("c05", 1) == 1]
+    ctx.extra["documents_skipped_terminal_with_rectangles"] = len(allgen) - len(gen)
     rng = random.Random(ctx.seed * 1000003 + 5)
     budget = 1500 if tier == "quick" else 12000
     if len(gen) > budget:     # the model check covers all; replay a seeded sample (all one-module documents kept)
@@ -172,7 +176,7 @@ def run(ctx: Ctx) -> int:
     else:
         picked = gen
     nrand = 100 if tier == "quick" else 1500
-    rdocs = [random_doc(rng) for _ in range(nrand)]
+    rdocs = [random_doc(rng, terminal_rects=False) for _ in range(nrand)]
     # every injection comes from the one definition Fpef!Inject, printed by TLC for the chosen documents
     patches = inject_with_tlc(ctx, [g["doc"] for g in picked] + rdocs)
     cases = [{"doc": g["doc"], "patches": patches[i], "embs": embeddings_for(i, g["doc"], tier),
@@ -195,7 +199,7 @@ def run(ctx: Ctx) -> int:
         "float dimension sampled by 8 embeddings of the integer lattice (steps 1, 1.0, 1/2, 1/10, 1/3, 1e3, 1e-3, 0.1+37.3), not enumerated",
         "identifier validity is modelled by a fixed list of invalid spellings (\"3x\", \"a-b\", \"x y\", \"\", a trailing or embedded line feed, a trailing space or tab; for regions also \"dsp\\n\", \"r \"); all other names match [A-Za-z_][A-Za-z0-9_]*",
         "well-formed documents have non-negative rectangle centres (the reader refuses negative numbers), flippable modules that are "
-        "single-trunk orthogons, hard (and terminal) rectangles without region: the format rules that delimit the quantifier; a terminal with rectangles has their area and centroid, one without has area zero",
+        "single-trunk orthogons, hard rectangles without region, terminals without rectangles (a terminal is a point: the statement gives every terminal area zero; documents in which a terminal has rectangles are accepted by the reader and belong to C04's round trip only -- C05 neither generates nor judges them): the format rules that delimit the quantifier",
         "wire length is judged against an interval (integer square roots at resolution 1/128 lattice unit, about 0.03 units per pin), "
         "observed value rounded to 0.01 unit; a net with a centre-less member has no defined length and is not judged",
         "rectangle lists are compared as multisets; a well-formed document that is refused is reported (clause `loads`): the statement "
